@@ -27,6 +27,15 @@ pub trait ChipModel {
     fn transact(&mut self, w: &[u8], read_len: usize) -> Vec<u8>;
     /// Hardware reset line pulsed.
     fn reset(&mut self) {}
+    /// The driver waits for the interrupt line: time passes on the chip. Returns whether the
+    /// line fires (false: the wait never completes).
+    fn irq_wait(&mut self) -> bool {
+        true
+    }
+    /// Level of the BUSY line (SX126x: high for as long as the chip sleeps).
+    fn busy(&self) -> bool {
+        false
+    }
     fn as_any(&mut self) -> &mut dyn std::any::Any;
 }
 
@@ -52,12 +61,19 @@ pub struct PhyInner {
     /// the IRQ / busy wait at this position stays pending forever (to place a drop there)
     pub pend_at: Option<usize>,
     pub faulted: Option<(usize, &'static str)>,
+    /// a wait that can never complete was entered (why)
+    pub stuck: Option<&'static str>,
+    /// the wait at `pend_at` was reached (the caller's drop lands there)
+    pub pended: Option<(usize, &'static str)>,
+    /// kind of every environment position consumed so far
+    pub kinds: Vec<&'static str>,
 }
 
 impl PhyInner {
     fn step(&mut self, what: &'static str) -> bool {
         let p = self.pos;
         self.pos += 1;
+        self.kinds.push(what);
         if self.fault_at == Some(p) {
             self.faulted = Some((p, what));
             true
@@ -72,7 +88,7 @@ pub struct Env(pub Rc<RefCell<PhyInner>>);
 
 impl Env {
     pub fn new(chip: Box<dyn ChipModel>) -> Env {
-        Env(Rc::new(RefCell::new(PhyInner { chip, log: vec![], iv_log: vec![], pos: 0, fault_at: None, pend_at: None, faulted: None })))
+        Env(Rc::new(RefCell::new(PhyInner { chip, log: vec![], iv_log: vec![], pos: 0, fault_at: None, pend_at: None, faulted: None, stuck: None, pended: None, kinds: vec![] })))
     }
     pub fn spi(&self) -> MockSpi {
         MockSpi(self.0.clone())
@@ -100,10 +116,16 @@ impl ErrorType for MockSpi {
 }
 
 impl MockSpi {
-    fn run(&mut self, ops: &mut [Operation<'_, u8>]) -> Result<(), SpiFault> {
+    /// Ok(false): the transaction is still outstanding (the caller's drop lands before it)
+    fn run(&mut self, ops: &mut [Operation<'_, u8>]) -> Result<bool, SpiFault> {
         let mut g = self.0.borrow_mut();
+        let p = g.pos;
         if g.step("spi") {
             return Err(SpiFault);
+        }
+        if g.pend_at == Some(p) {
+            g.pended = Some((p, "spi"));
+            return Ok(false);
         }
         let mut w = vec![];
         let mut rl = 0;
@@ -139,13 +161,16 @@ impl MockSpi {
             }
         }
         g.log.push(Txn { w, r: resp });
-        Ok(())
+        Ok(true)
     }
 }
 
 impl SpiDevice<u8> for MockSpi {
     async fn transaction(&mut self, operations: &mut [Operation<'_, u8>]) -> Result<(), SpiFault> {
-        self.run(operations)
+        if !self.run(operations)? {
+            forever().await;
+        }
+        Ok(())
     }
 }
 
@@ -174,7 +199,15 @@ impl InterfaceVariant for MockIv {
             if g.step("busy") {
                 return Err(RadioError::Busy);
             }
-            g.pend_at == Some(p)
+            if g.chip.busy() {
+                g.stuck = Some("BUSY line of a sleeping chip");
+                true
+            } else if g.pend_at == Some(p) {
+                g.pended = Some((p, "busy"));
+                true
+            } else {
+                false
+            }
         };
         if pend {
             forever().await;
@@ -186,10 +219,19 @@ impl InterfaceVariant for MockIv {
             let mut g = self.0.borrow_mut();
             g.iv_log.push(IvOp::Irq);
             let p = g.pos;
+            let fired = g.chip.irq_wait();
             if g.step("irq") {
                 return Err(RadioError::Irq);
             }
-            g.pend_at == Some(p)
+            if g.pend_at == Some(p) {
+                g.pended = Some((p, "irq"));
+                true
+            } else if !fired {
+                g.stuck = Some("interrupt line that never fires");
+                true
+            } else {
+                false
+            }
         };
         if pend {
             forever().await;
@@ -216,7 +258,22 @@ impl InterfaceVariant for MockIv {
 pub struct MockDelay(pub Rc<RefCell<PhyInner>>);
 impl DelayNs for MockDelay {
     async fn delay_ns(&mut self, ns: u32) {
-        self.0.borrow_mut().iv_log.push(IvOp::Delay(ns));
+        let pend = {
+            let mut g = self.0.borrow_mut();
+            g.iv_log.push(IvOp::Delay(ns));
+            let p = g.pos;
+            g.pos += 1;
+            g.kinds.push("delay");
+            if g.pend_at == Some(p) {
+                g.pended = Some((p, "delay"));
+                true
+            } else {
+                false
+            }
+        };
+        if pend {
+            forever().await;
+        }
     }
 }
 
